@@ -1502,7 +1502,15 @@ impl Check for C08 {
                     } else if injected_u {
                         "uniform_sampler_err"
                     } else if evs.iter().any(|e| matches!(e, Ev::SU(None))) {
-                        "unbounded_space"
+                        // the library's own sampler returned Err without any injection: the
+                        // documented error of an unbounded R^n (a known finding that it is
+                        // unwrapped) — on a BOUNDED space it is a sampler that gave up
+                        let unbounded = match &scn.space {
+                            SpaceSpec::RV { bounds: None, .. } => true,
+                            SpaceSpec::Compound { parts, .. } => parts.iter().any(|p| matches!(p, SpaceSpec::RV { bounds: None, .. })),
+                            _ => false,
+                        };
+                        if unbounded { "unbounded_space" } else { "sampler_failed_on_a_bounded_space" }
                     } else if !(scn.planner.goal_bias >= 0.0 && scn.planner.goal_bias <= 1.0) {
                         "goal_bias_out_of_range"
                     } else if scn.problems.iter().any(|p| p.starts.is_empty()) {
